@@ -41,4 +41,8 @@ RecvBigW      == { MkR(RealM, W, 1, TRUE, 0) : W \in {65534, 65535} }
 
 \* uploads whose target cannot be written (write error as abort cause)
 RecvDevfull == { [MkR(RealM, W, 1, clean, 0) EXCEPT !.devfull = TRUE] : W \in 1..3, clean \in BOOLEAN }
+
+\* uploads over a target that already exists with longer content (the harness pre-fills the file;
+\* the specification is unaffected: File::create truncates)
+RecvPrefill == { [MkR(RealM, W, 1, clean, 0) EXCEPT !.NB = 4] : W \in 1..2, clean \in BOOLEAN }
 =============================================================================
